@@ -426,3 +426,31 @@ def rdir_term(st):
     d = st['top']['descr']
     td = (f"(Val (mkRDescr {cz(d['len'])} {cz(d['size'])} {czl(d['atom'])} {NT_COQ[d['numtype']]}))")
     return f"(mkRDir {adir_term(st['values'])} {adir_term(st['indices'])} {td} Absent false)"
+
+
+def locale_independent(ctx, cases, obs, func, label, n=10):
+    """the same cases again in a process whose preferred encoding is not UTF-8: every outcome and every
+    file must be the same (Darr writes its text files as UTF-8 / ASCII explicitly)"""
+    import common
+    idx = list(range(0, len(cases), max(1, len(cases) // n)))[:n]
+    sub = [cases[i] for i in idx]
+    obs2 = ctx.run_impl(sub, func, timeout=1200, env_extra=common.C_LOCALE)
+    def essence(steps):
+        if isinstance(steps, dict):
+            return steps.get('harness_error', str(steps))[:200]
+        out = []
+        for st in steps:
+            keep = {k: st.get(k) for k in ('res', 'files', 'top', 'values', 'indices') if k in st}
+            if isinstance(keep.get('res'), list):
+                keep['res'] = keep['res'][:2]
+            out.append(keep)
+        return out
+    for i, o2 in zip(idx, obs2):
+        ctx.evaluations += 1
+        ctx.count('locale-C rerun')
+        a, b = essence(obs[i]), essence(o2)
+        if a != b:
+            first = b if isinstance(b, str) else next((k for k, (x, y) in enumerate(zip(a, b)) if x != y), len(a))
+            ctx.fail('locale-dependent:' + label, dict(case_index=i, letters=cases[i].get('letters')),
+                     expected='identical outcomes and files under LC_ALL=C, PYTHONUTF8=0',
+                     observed=dict(first_difference=first))
